@@ -43,12 +43,14 @@ class C16(Prop):
         rep = lambda c: GT.is_rep(c[1])
         two = ["natural@str", "1@int"]
         if tier == "quick":
-            return [Layer("FST(2,<=2)", un(lambda: GT.fst_cases(2, 0, 2)), rep=rep, policies=two + ["2@str"]),
+            return [Layer("FST(2,<=2)", un(lambda: GT.fst_cases(2, 0, 2)), rep=rep,
+                          policies=two + ["2@str", "natural@hub", "natural@str+xx"]),
                     Layer("pairs T1xT1", lambda: (("bin", "T1", i, "T1", j) for i in range(len(pool("T1")))
                                                   for j in range(len(pool("T1")))), policies=two + ["natural@pre", "2@pre"]),
                     Layer("to_fst FA(2,2,<=3)", lambda: (("fa", c) for c in GF.fa_cases(2, 2, 0, 3)),
                           rep=lambda c: GF.is_rep(c[1]), policies=two)]
-        return [Layer("FST(2,<=2)", un(lambda: GT.fst_cases(2, 0, 2)), rep=None, policies=two + ["2@str", "3@int"]),
+        return [Layer("FST(2,<=2)", un(lambda: GT.fst_cases(2, 0, 2)), rep=None,
+                      policies=two + ["2@str", "3@int", "natural@hub", "1@hub", "natural@str+xx", "1@int+xx"]),
                 Layer("FST(2,3)", un(lambda: GT.fst_cases(2, 3, 3)), rep=rep, policies=two),
                 Layer("FST(3 states,<=2)", un(lambda: GT.fst_cases(3, 0, 2)), rep=rep, policies=two),
                 Layer("pairs T2xT1 /3", lambda: (("bin", "T2", i, "T1", j) for i in range(len(pool("T2")))
@@ -131,7 +133,7 @@ class C16(Prop):
                 ctx.fail("C16.%s.relation" % name, input=w, missing=sorted(want - got)[:3], extra=sorted(got - want)[:3],
                          result=x.describe())
                 break
-        for w in inputs[:4]:
+        for w in inputs[:7]:
             self._translate(ctx, "C16.%s.translate" % name, res.value, w, want_fn(w))
 
     def check(self, case, ref, ctx):
